@@ -58,6 +58,32 @@ def frames():
     return dict(new=new, old=old, rnd=rnd, unk=unk)
 
 
+BIG_N = 140_000
+
+
+def big_frame():
+    import pandas as pd
+
+    idx = np.arange(BIG_N)
+    pid = idx % NPATCH
+    rng = np.random.default_rng(77)
+    c = np.rad2deg(centers().data)
+    return pd.DataFrame(dict(ra=c[pid, 0] + rng.uniform(-1.0, 1.0, BIG_N), dec=c[pid, 1] + rng.uniform(-1.0, 1.0, BIG_N),
+                             w=1.0 + (idx % 7), z=rng.uniform(0.1, 1.0, BIG_N), pid=pid))
+
+
+def count_records(cat_dir):
+    """(number of records, sum of weights) of the catalog at cat_dir, cheap enough for large catalogs."""
+    yaw = data.import_yaw()
+    cat = yaw.Catalog(cat_dir, max_workers=1)
+    n, sw = 0, 0.0
+    for _, p in cat.items():
+        d = p.load_data()
+        n += len(d)
+        sw += float(d["weights"].sum())
+    return n, sw
+
+
 def make(path, which, **kw):
     return data.make_catalog(path, frames()[which], centers(), **kw)
 
@@ -222,6 +248,9 @@ def run_workload(name: str, root: Path, inputs: Path) -> None:
         make(root / "cat", "new", overwrite=False, chunksize=25)   # several appends per patch
     elif name == "overwrite":
         make(root / "cat", "new", overwrite=True, chunksize=25)
+    elif name == "create_big":
+        # more records per patch than any write buffer the library may use (70000 per patch, chunks of 40000)
+        data.make_catalog(root / "cat", big_frame(), centers(), overwrite=False, chunksize=40000)
     elif name == "meta":
         yaw.Catalog(root / "cat", max_workers=1)
     elif name.startswith("build:"):
